@@ -6,6 +6,7 @@ G3 == <<"a", "b", "c">>
 G4 == <<"a", "b", "c", "d">>
 G3u == <<"a", "b_u", "c">>            \* an included contig whose name contains an underscore
 G3p == <<"chr1", "chr11", "chr2">>      \* one name is a prefix of another
+G3r == <<"a", "b", "aa">>                 \* a one-letter name and a name made of repetitions of that letter, another contig between them
 Emit == status \in {"error", "completed"} =>
           PrintT(ToJson([genome |-> Genome, groups |-> groups, consumer |-> consumer, mech |-> Mechanism,
                          status |-> status, out |-> out, pulls |-> pulls, derived |-> (derived # {}),
